@@ -12,9 +12,9 @@
 
 static inline int path_is_single_dot(const char *path)
 {
-    char nc = *(path + 1);
-
-    return *path == '.' && (nc == '/' || nc == '\0');
+    // look at the next character only when this one is a dot (path may point
+    // at the terminator)
+    return *path == '.' && (*(path + 1) == '/' || *(path + 1) == '\0');
 }
 
 // Промотать указатель до следующего элемента пути.
